@@ -13,6 +13,6 @@ import (
 // Observed: the values the querier's counter iterator yields at both levels.
 func TestC37(t *testing.T) {
 	rnd := vt.Rand()
-	vt.Run(t, func(yield func(vt.Case)) { pipelineCases(t, rnd, false, yield) },
+	vt.Run(t, func(yield func(vt.Case)) { pipelineCases(t, rnd, false, false, yield) },
 		func(vt.Case) string { return "" }, runPipeline)
 }
